@@ -320,3 +320,19 @@ def run(ck):
               "every path from `size == 0` to `return Final` passes cursor.advance" if fin and not early else
               "Final can be returned at line %s without the closing CRLF having been consumed" % (early[0].get("l") if early else "?"))
     ck.require(nfin >= 1, "`return Final` not found after the `size == 0` test in Chunk::parse")
+
+    # ---------------- R4: whatever the connection receives goes through its parser ----------------
+    ck.rule("C04-R4", "C must-pass-through",
+            "the client's connection keeps its place in the byte stream by parsing everything it receives: every non-throwing path through "
+            "Connection::handleResponsePacket hands the received bytes to the response parser (feed) -- also when no request is waiting "
+            "(the rest of a response whose request timed out).  Bytes that are dropped unparsed leave the parser in the middle of the old "
+            "message, and the next response is taken for its continuation", 1)
+    hrp = lib.single(prog, "Pistache::Http::Experimental::Connection::handleResponsePacket")
+    feeds = lib.Summaries(prog).lift_must(lambda e: e["k"] == "call" and strip_tmpl(e.get("callee") or "") in
+                                          ("Pistache::Http::Private::ParserBase::feed", "Pistache::Http::Private::ParserImpl::feed") or
+                                          (e["k"] == "call" and (e.get("callee") or "") in ("Pistache::Http::Experimental::Connection::close",)), "feeds-parser")
+    unfed = [x for x in cfg.exits_without(hrp, feeds) if x.kind != "throw"]
+    ck.ob("C04-R4", "handleResponsePacket/every-byte-is-parsed", not unfed, (unfed[0].event.loc if unfed and unfed[0].event is not None else hrp.loc), hrp,
+          "parser.feed() (or close) on every path" if not unfed else
+          "handleResponsePacket can return (line %s) without handing the received bytes to the parser: the parser stays inside the previous "
+          "message and the next response on the connection is parsed as its continuation" % (unfed[0].event.get("l") if unfed[0].event is not None else "?"))
